@@ -361,6 +361,32 @@ _STORE_OK = {
 }
 
 
+# pure codec / OS libraries outside the instrumented tree: proxies are handed over as
+# native values (exact when the proxy is fully concrete, otherwise realised + flagged)
+_FOREIGN_CODECS = ("base64", "binascii", "zlib", "json", "urllib", "hashlib", "hmac", "quopri", "codecs",
+                   "ipaddress", "socket", "os", "posixpath", "pathlib", "mimetypes", "email", "zoneinfo",
+                   "datetime", "calendar", "brotli", "zstandard", "gzip", "secrets", "uuid")
+
+
+def _is_foreign_codec(f):
+    mod = getattr(f, "__module__", None) or getattr(getattr(f, "__self__", None), "__name__", "") or ""
+    if not isinstance(mod, str):
+        return False
+    return mod.split(".")[0] in _FOREIGN_CODECS
+
+
+def _foreign_arg(x):
+    if isinstance(x, SSeq):
+        if x.is_concrete():
+            return x.concrete()
+        return x.realise("foreign codec call")
+    if isinstance(x, (SInt, SBool)):
+        return _realise_arg(x)
+    if isinstance(x, (list, tuple)) and _deepsym(x, 1):
+        return type(x)(_foreign_arg(y) for y in x)
+    return x
+
+
 class SX:
     """runtime bound as `_sx_` in every instrumented module"""
 
@@ -383,6 +409,8 @@ class SX:
         m = FUNC_MODELS.get(f) if getattr(f, "__hash__", None) else None
         if m is not None:
             return m(*a, **k)
+        if _is_foreign_codec(f):
+            return f(*[_foreign_arg(x) for x in a], **{n: _foreign_arg(v) for n, v in k.items()})
         if isinstance(f, _CFUNC_TYPES) or (isinstance(f, type) and f.__module__ == "builtins"):
             return SX._native_call(f, a, k)
         if isinstance(f, types.MethodType) and isinstance(f.__func__, _CFUNC_TYPES):
@@ -444,6 +472,8 @@ class SX:
         if to is dict and name in ("get", "pop", "__getitem__", "__contains__") and type(a[0]) in SYM_TYPES:
             return _dict_lookup(o, name, a)
         m = getattr(o, name)
+        if (isinstance(o, types.ModuleType) and o.__name__.split(".")[0] in _FOREIGN_CODECS) or _is_foreign_codec(m):
+            return m(*[_foreign_arg(x) for x in a], **{n: _foreign_arg(v) for n, v in k.items()})
         if isinstance(m, _CFUNC_TYPES) and not isinstance(o, (list, dict, tuple, set, frozenset)) \
                 and to.__module__ not in ("collections", "builtins", "_asyncio", "asyncio.futures", "_collections"):
             try:
